@@ -13,7 +13,13 @@ values computed beforehand or between two maps, with and without attached colour
 an overridden centre of mass; point cloud, 2D and 3D path, Box / Cylinder / Sphere / Capsule /
 Extrusion primitives, scene, voxel grid, empty geometries), through every entry point
 (apply_transform with the matrix in several containers / dtypes / layouts, apply_scale,
-apply_translation), snaps what the real object reports to integers and lets TLC judge each record.
+apply_translation - their argument as list, tuple, float / integer ndarray, per-axis scales with a
+component that is exactly 1), also on geometry placed far from the origin (5e5, scene nodes at 4e8) moved
+by maps that are small against its coordinates, snaps what the real object reports to integers and lets
+TLC judge each record.  Values measured before a map (mesh: areas, angles, normals, bounds, centroid;
+path: length, area, bounds; cloud: bounds, centroid) are compared afterwards with a fresh object built
+from the moved points; for 2D paths TLC also judges the exact laws of the plane (area scales by |det|
+under every affine map, length by s under similarities).
 Curved primitives (irrational vertices) and the near-identity shortcut boundaries are judged on
 the symbolic-term route: TLC's map is evaluated with numpy (matrix times point) and compared
 within the documented granularity.
@@ -74,6 +80,8 @@ MAPS = {
     "rot345": {"l": [[3, -4, 0], [4, 3, 0], [0, 0, 5]], "t": [5, 0, 10], "den": 5},                # rotation about z, cos = 3/5
     "rot_q3": {"l": [[1, 2, 2], [2, 1, -2], [-2, 2, -1]], "t": [0, 3, 0], "den": 3},               # quaternion (1,1,1,0)
     "half": {"l": I3, "t": [0, 0, 0], "den": 2},
+    "squeeze": {"l": [[16, 0, 0], [0, 1, 0], [0, 0, 4]], "t": [0, 0, 0], "den": 4},   # diag(4, 1/4, 1): det 1, not rigid
+    "nudge": {"l": I3, "t": [1, -1, 2]},                                             # small against far-away geometry
     # singular: the surface is flattened (never part of a round trip)
     "proj_z": {"l": [[1, 0, 0], [0, 1, 0], [0, 0, 0]], "t": [0, 0, 2]},
     "proj_y": {"l": [[1, 0, 0], [0, 0, 0], [0, 0, 1]], "t": [0, 2, 0]},
@@ -88,15 +96,26 @@ MAPS = {
     "e_scale_xy": {"l": [[2, 0, 0], [0, 3, 0], [0, 0, 1]], "t": [0, 0, 0], "call": ("apply_scale", [2.0, 3.0, 1.0]), "call2d": ("apply_scale", [2.0, 3.0])},
     "e_translate": {"l": I3, "t": [2, -4, 6], "call": ("apply_translation", [2.0, -4.0, 6.0]), "call2d": ("apply_translation", [2.0, -4.0])},
     "e_translate_int": {"l": I3, "t": [-2, 0, 4], "call": ("apply_translation", (-2, 0, 4)), "call2d": ("apply_translation", (-2, 0))},
+    "e_nudge": {"l": I3, "t": [1, -1, 2], "call": ("apply_translation", [1.0, -1.0, 2.0]), "call2d": ("apply_translation", [1.0, -1.0])},
 }
 SINGULAR = ["proj_z", "proj_y", "rank1"]
 ENTRY = [n for n in MAPS if n.startswith("e_")]
 MATRIX = [n for n in MAPS if not n.startswith("e_")]
 RATIONAL = [n for n in MAPS if MAPS[n].get("den", 1) > 1]
 # keep the z = 0 plane (2D paths)
-PLANAR = ["translate", "rigid_z", "similarity", "scale", "mirror", "shear", "mirror_aniso", "mirror_sim", "rot345", "half", "proj_y"]
+PLANAR = ["translate", "rigid_z", "similarity", "scale", "mirror", "shear", "mirror_aniso", "mirror_sim", "rot345", "half", "squeeze", "nudge", "proj_y"]
 PLANAR_ENTRY = [n for n in ENTRY if "call2d" in MAPS[n]]
 FORMS = ["list", "tuple", "int", "f32", "fortran", "strided", "readonly", "tracked"]
+# the argument of apply_scale / apply_translation in another container (a per-axis scale with a component
+# that is exactly 1, a translation with a zero component, ... as python list, tuple, float / integer ndarray)
+ARGFORMS = ["asis", "ndarray", "tuple", "int_array"]
+VECTOR_ENTRY = [n for n in ENTRY if isinstance(MAPS[n]["call"][1], (list, tuple))]
+# geometry far from the origin (survey coordinates, assemblies in mm): placed at OFF, scene nodes also at OFF2
+OFF = np.array([500000.0, 300000.0, -400000.0])
+OFF2 = np.array([400000000.0, -300000000.0, 200000000.0])
+FAR_KINDS = ["scene_far", "mesh_box_far", "cloud_far", "path3d_far", "voxel_far"]
+FAR_MAPS = ["nudge", "translate", "rigid_z", "mirror", "scale", "similarity", "mirror_rot", "point_reflect",
+            "e_nudge", "e_translate", "e_translate_int", "e_scale2", "e_scale_neg"]
 
 
 def den_of(e):
@@ -141,7 +160,9 @@ def total_int(maps):
            + L[0][2] * (L[1][0] * L[2][1] - L[1][1] * L[2][0]))
     G = [[sum(L[k][r] * L[k][c] for k in range(3)) for c in range(3)] for r in range(3)]
     sim = G[0][0] == G[1][1] == G[2][2] and G[0][1] == 0 and G[0][2] == 0 and G[1][2] == 0
-    return {"l": L, "t": t, "q": q, "det": det, "sim": sim, "s2": G[0][0], "maxl": max(abs(x) for r in L for x in r)}
+    sim2 = L[0][0] ** 2 + L[1][0] ** 2 == L[0][1] ** 2 + L[1][1] ** 2 and L[0][0] * L[0][1] + L[1][0] * L[1][1] == 0
+    return {"l": L, "t": t, "q": q, "det": det, "sim": sim, "s2": G[0][0], "maxl": max(abs(x) for r in L for x in r),
+            "sim2": sim2, "col2": L[0][0] ** 2 + L[1][0] ** 2, "rowsum": max(sum(abs(x) for x in r) for r in L), "maxt": max(abs(x) for x in t)}
 
 
 class Off(Exception):
@@ -237,13 +258,14 @@ def base_record(kind, pts, faces, names, restore, planar2d=False):
     maps = [planar(MAPS[n]) if planar2d else rec_map(MAPS[n]) for n in names]
     return {"kind": kind, "pts": np.asarray(pts).astype(int).tolist(), "faces": (np.asarray(faces) + 1).tolist() if len(faces) else [],
             "maps": maps, "names": list(names), "restore": restore, "exc": "", "side": [],
-            "vol6": 0, "com": [0, 0, 0], "comden": 20 if kind == "mesh_two" else 4, "area2": 0, "inertia": [[0, 0, 0]] * 3}
+            "vol6": 0, "com": [0, 0, 0], "comden": 20 if kind == "mesh_two" else 4, "parea2": 0, "plen2": 0, "area2": 0, "inertia": [[0, 0, 0]] * 3}
 
 
 def empty_obs(den=1):
     return {"den": den, "pts": [], "faces": [], "has_vol": False, "vol6": 0, "has_com": False, "com": [0, 0, 0],
             "has_area": False, "area2": 0, "has_inertia": False, "inertia": [[0, 0, 0]] * 3, "iden": 1,
-            "has_bounds": False, "bounds": [[0, 0, 0], [0, 0, 0]]}
+            "has_bounds": False, "bounds": [[0, 0, 0], [0, 0, 0]],
+            "has_parea": False, "parea2": 0, "has_plen": False, "plen2": 0}
 
 
 def obs_den(r):
@@ -343,7 +365,19 @@ def _apply_all(obj, kind, names, restore, opts):
         call = e.get("call2d" if planar2d else "call")
         if call is not None:
             arg = call[1]
-            getattr(obj, call[0])(list(arg) if isinstance(arg, list) else arg)
+            af = opts.get("argform", "asis")
+            if isinstance(arg, (list, tuple)):
+                if af == "ndarray":
+                    arg = np.array(arg, dtype=np.float64)
+                elif af == "int_array" and all(float(x).is_integer() for x in arg):
+                    arg = np.array(arg, dtype=np.int64)
+                elif af == "tuple":
+                    arg = tuple(arg)
+                else:
+                    arg = list(arg) if isinstance(arg, list) else arg
+            elif af == "ndarray":
+                arg = np.float64(arg)
+            getattr(obj, call[0])(arg)
         else:
             buf = as_form(M, form if form_ok(form, e) else "f64")
             obj.apply_transform(buf)
@@ -399,18 +433,22 @@ def attach(tm, m, variant):
 
 def run_case(tm, kind, names, restore, warm, opts):
     """-> record"""
+    far = kind.endswith("_far")
+    rkind, kind = kind, (kind[:-4] if far else kind)       # rkind names the record, kind selects the builder
+    off = OFF if far else np.zeros(3)
     try:
         if kind in MESH_KINDS:
             v, f = mesh_seed(tm, kind)
+            v = v + off
             m = tm.Trimesh(v.copy(), f.copy(), process=False)
-            r = base_record(kind, v, f, names, restore)
+            r = base_record(rkind, v, f, names, restore)
             d, T = obs_den(r)
-            closed = kind in CLOSED
+            closed = kind in CLOSED and not far      # far from the origin the integrals cancel in floating point
             changed = None
             if closed:
                 r["vol6"] = int(round(float(m.volume) * 6))
                 r["com"] = snap(np.array(m.center_mass) * r["comden"], 1, "com0")
-            if kind == "mesh_box":
+            if kind == "mesh_box" and not far:
                 r["area2"] = int(round(float(m.area) * 2))
                 r["inertia"] = snap(np.array(m.moment_inertia) * 3, 1, "inertia0")
             if opts.get("attached"):
@@ -448,7 +486,7 @@ def run_case(tm, kind, names, restore, warm, opts):
             fresh = tm.Trimesh(np.array(m.vertices), np.array(m.faces), process=False)
             for key, tol in (("face_angles", 1e-6), ("vertex_defects", 1e-6), ("vertex_normals", 1e-6), ("face_normals", 1e-9),
                              ("edges_unique_length", 1e-9), ("area_faces", 1e-9), ("face_adjacency_angles", 1e-6), ("triangles_center", 1e-9),
-                             ("bounds", 1e-9)):
+                             ("bounds", 1e-9), ("area", 1e-9), ("extents", 1e-9), ("centroid", 1e-9)):
                 if flat and key in ("face_angles", "vertex_defects", "vertex_normals", "face_normals", "face_adjacency_angles"):
                     continue
                 a, b = np.asarray(getattr(m, key), dtype=float), np.asarray(getattr(fresh, key), dtype=float)
@@ -474,10 +512,10 @@ def run_case(tm, kind, names, restore, warm, opts):
             r["obs"] = o
             return r
         if kind == "cloud":
-            v = np.array([[0, 0, 0], [2, 2, 0], [0, 4, 2], [-2, 0, 2], [6, 6, 6]], dtype=float)
+            v = np.array([[0, 0, 0], [2, 2, 0], [0, 4, 2], [-2, 0, 2], [6, 6, 6]], dtype=float) + off
             c = (np.arange(20).reshape(5, 4) * 9 % 255).astype(np.uint8)
             p = tm.PointCloud(v.copy(), colors=c, metadata={"k": {"a": 1}})
-            r = base_record(kind, v, [], names, restore)
+            r = base_record(rkind, v, [], names, restore)
             d, T = obs_den(r)
             if warm != "none":
                 p.bounds, p.centroid, p.extents
@@ -489,19 +527,26 @@ def run_case(tm, kind, names, restore, warm, opts):
                 r["exc"] = "colors_changed"
             if p.metadata.get("k") != {"a": 1}:
                 r["side"].append("attached_data_changed:metadata")
+            fresh = tm.PointCloud(np.array(p.vertices))
+            for key in ("bounds", "extents", "centroid"):
+                a, b = np.asarray(getattr(p, key), dtype=float), np.asarray(getattr(fresh, key), dtype=float)
+                if a.shape != b.shape or not np.allclose(a, b, rtol=0, atol=1e-9 * max(1.0, float(np.abs(b).max()))):
+                    r["side"].append("derived_value_differs_from_fresh_cloud:" + key)
             r["obs"] = o
             return r
         if kind in ("path3d", "path2d"):
             from trimesh.path.entities import Line
             col = [255, 0, 0, 255]
             if kind == "path3d":
-                v = np.array([[0, 0, 0], [4, 0, 2], [4, 2, 0], [0, 2, 2]], dtype=float)
+                v = np.array([[0, 0, 0], [4, 0, 2], [4, 2, 0], [0, 2, 2]], dtype=float) + off
                 p = tm.path.Path3D(entities=[Line([0, 1, 2], layer="L1"), Line([2, 3, 0], color=col)], vertices=v.copy(), process=False, metadata={"k": 1})
-                r = base_record(kind, v, [], names, restore)
+                r = base_record(rkind, v, [], names, restore)
             else:
                 v2 = np.array([[0, 0], [4, 0], [4, 2], [0, 2]], dtype=float)
                 p = tm.path.Path2D(entities=[Line([0, 1, 2], layer="L1"), Line([2, 3, 0], color=col)], vertices=v2.copy(), process=False, metadata={"k": 1})
                 r = base_record(kind, np.column_stack([v2, np.zeros(4)]), [], names, restore, planar2d=True)
+                r["parea2"], r["plen2"] = int(round(float(p.area) * 2)), int(round(float(p.length) ** 2))     # 16, 144
+                p._cache.clear()
             d, T = obs_den(r)
             if warm != "none":
                 p.length, p.bounds, p.paths, p.discrete
@@ -526,6 +571,26 @@ def run_case(tm, kind, names, restore, warm, opts):
                     np.allclose(np.roll(disc[0][:-1], s, axis=0)[::o_], np.roll(want[:-1], 0, axis=0), atol=1e-9)
                     for s in range(4) for o_ in (1, -1)):
                 r["side"].append("discrete_curve_not_at_moved_vertices")
+            # nothing measured before the maps may survive them with a wrong value
+            fresh = type(p)(entities=[e.copy() for e in p.entities], vertices=np.array(p.vertices), process=False)
+            for key in ("length", "bounds", "extents") + (("area",) if kind == "path2d" else ()):
+                a, b = np.asarray(getattr(p, key), dtype=float), np.asarray(getattr(fresh, key), dtype=float)
+                if a.shape != b.shape or not np.allclose(a, b, rtol=0, atol=1e-9 * max(1.0, float(np.abs(b).max()) if b.size else 1.0)):
+                    r["side"].append("derived_value_differs_from_fresh_path:" + key)
+            if kind == "path2d":
+                q = 1 if restore else T["q"]
+                det = 1 if restore else abs(T["det"])
+                # the exact laws of the plane: area under any affine map, length under similarities (TLC's values)
+                if det != 0 and det * r["parea2"] * d * d < LIM and float(p.area) * 2 * d * d * q ** 3 < LIM:
+                    o["parea2"] = int(round(float(p.area) * 2 * d * d))
+                    if abs(float(p.area) * 2 * d * d - o["parea2"]) > 1e-6:
+                        raise Off("planar_area")
+                    o["has_parea"] = True
+                if (restore or T["sim2"]) and det != 0 and (1 if restore else T["col2"]) * r["plen2"] * d * d < LIM and float(p.length) ** 2 * d * d * q * q < LIM:
+                    o["plen2"] = int(round(float(p.length) ** 2 * d * d))
+                    if abs(float(p.length) ** 2 * d * d - o["plen2"]) > 1e-6:
+                        raise Off("planar_length_under_similarity")
+                    o["has_plen"] = True
             r["obs"] = o
             return r
         if kind == "prim_box":
@@ -560,13 +625,13 @@ def run_case(tm, kind, names, restore, warm, opts):
         if kind in ("voxel", "voxel_identity"):
             dn = np.array([[[1, 0], [1, 1], [0, 1]], [[0, 0], [1, 0], [1, 1]]], dtype=bool)
             T0 = np.diag([2.0, 2.0, 2.0, 1.0])
-            T0[:3, 3] = [2, 0, 4]
+            T0[:3, 3] = np.array([2, 0, 4]) + off
             if kind == "voxel_identity":
                 T0 = np.eye(4)       # a grid that has not been placed yet (shortcuts for the identity live here)
             g = tm.voxel.VoxelGrid(dn.copy(), transform=T0, metadata={"k": 1})
             v0 = np.array(g.points)
             idx0 = np.array(g.sparse_indices)
-            r = base_record(kind, v0, [], names, restore)
+            r = base_record(rkind, v0, [], names, restore)
             d, T = obs_den(r)
             if warm != "none":
                 g.bounds, g.volume, g.points, g._transform.inverse_matrix, g._transform.is_identity
@@ -586,11 +651,16 @@ def run_case(tm, kind, names, restore, warm, opts):
             m = tm.Trimesh(TETV.copy(), TETF.copy(), process=False)
             m2 = tm.Trimesh(BOXV.copy(), box_faces(tm), process=False)
             s = tm.Scene()
-            s.add_geometry(m, node_name="a", geom_name="tet", transform=to4(MAPS["rigid_z"]), metadata={"tag": "A"} if opts.get("attached") else None)
+            def placed(name, at):
+                P = to4(MAPS[name])
+                P[:3, 3] += at
+                return P
+            # far: the stored node matrices hold large translations, the maps are small against them
+            s.add_geometry(m, node_name="a", geom_name="tet", transform=placed("rigid_z", off), metadata={"tag": "A"} if opts.get("attached") else None)
             s.graph.update(frame_to="b", frame_from="a", matrix=to4(MAPS["translate"]), geometry="tet")
-            s.add_geometry(m2, node_name="c", geom_name="box", transform=to4(MAPS["similarity"]))
+            s.add_geometry(m2, node_name="c", geom_name="box", transform=placed("similarity", OFF2 if far else off))
             s.graph.update(frame_to="d", frame_from="c", matrix=to4(MAPS["mirror"]), geometry="box")
-            s.graph.update(frame_to="frame", matrix=to4(MAPS["rigid_xy"]))          # a frame without geometry
+            s.graph.update(frame_to="frame", matrix=placed("rigid_xy", off[[1, 2, 0]]))          # a frame without geometry
             frame_pts = np.array([[0, 0, 0], [1, 0, 0], [0, 1, 0], [0, 0, 1]], dtype=float)
 
             def points():
@@ -599,7 +669,7 @@ def run_case(tm, kind, names, restore, warm, opts):
                 return np.vstack([tri, frame_pts @ F[:3, :3].T + F[:3, 3]])
             nodes0 = [str(x) for x in s.triangles_node]
             pts0 = points()
-            r = base_record(kind, pts0, [], names, restore)
+            r = base_record(rkind, pts0, [], names, restore)
             d, T = obs_den(r)
             if warm != "none":
                 s.bounds, s.triangles, s.extents
@@ -620,7 +690,7 @@ def run_case(tm, kind, names, restore, warm, opts):
             r["obs"] = o
             return r
     except (Off, Raised) as e:
-        r = base_record(kind, [[0, 0, 0]], [], names, restore)
+        r = base_record(rkind, [[0, 0, 0]], [], names, restore)
         r["exc"] = ("offlattice:" if isinstance(e, Off) else "raised:") + str(e)
         r["obs"] = empty_obs()
         return r
@@ -867,6 +937,8 @@ def build_jobs(tier):
         T = total_int([MAPS[n] for n in names])
         if T["q"] > 243 or T["maxl"] > 400:
             return                                    # keeps TLC's integers small
+        if kind.endswith("_far") and (T["q"] != 1 or T["rowsum"] * (4.0001e8 if kind == "scene_far" else 5.1e5) + T["maxt"] >= LIM):
+            return
         jobs.append(("exact", fam, kind, list(names), restore, warm, opts))
 
     def pick(seq, k):
@@ -887,7 +959,7 @@ def build_jobs(tier):
                 exact("base", kind, [n], True, warm)
         pairs = list(itertools.product(ns, repeat=2))
         if quick:
-            pairs = pick(pairs, 160 if kind == "mesh_box" else 40)
+            pairs = pick(pairs, 120 if kind == "mesh_box" else 36)
         for a, b in pairs:
             exact("base", kind, [a, b], False, warms[-1] if (len(a) + len(b)) % 2 else "none")
         if not quick:
@@ -896,7 +968,9 @@ def build_jobs(tier):
                 exact("base", kind, tri, bool(rs.randint(2)), warms[rs.randint(len(warms))])
     # ---- every map applied twice (mirror twice = no re-winding)
     for kind in kinds3:
-        for n in MATRIX:
+        for j, n in enumerate(MATRIX):
+            if quick and kind in ("mesh_tet", "voxel_identity", "path3d") and j % 2:
+                continue              # these kinds share the code of mesh_box / voxel / cloud: every other map
             exact("twice", kind, [n, n], False, warms_of(kind)[-1])
     # ---- seeds: other meshes (two bodies, open, unreferenced vertices, degenerate faces)
     for kind in ("mesh_two", "mesh_open", "mesh_unref", "mesh_degen"):
@@ -911,17 +985,33 @@ def build_jobs(tier):
         es = PLANAR_ENTRY if kind == "path2d" else ENTRY
         ms = PLANAR if kind == "path2d" else MATRIX
         for n in es:
-            for warm in warms_of(kind):
-                exact("entry", kind, [n], False, warm)
-            exact("entry", kind, [n], True, warms_of(kind)[-1])
+            # the helper's argument as given, as float ndarray, as tuple (and as integer ndarray in the round trip)
+            for w, warm in enumerate(warms_of(kind) + (["none"] if len(warms_of(kind)) == 2 else [])):
+                exact("entry", kind, [n], False, warm, argform=ARGFORMS[w % 3])
+            exact("entry", kind, [n], True, warms_of(kind)[-1], argform="int_array")
         both = [(a, b) for a in es for b in ms] + [(b, a) for a in es for b in ms] + list(itertools.product(es, repeat=2))
-        for a, b in pick(both, 24 if quick else 10 ** 6):
-            exact("entry", kind, [a, b], False, warms_of(kind)[(len(a) + len(b)) % 2])
+        for k, (a, b) in enumerate(pick(both, 24 if quick else 10 ** 6)):
+            exact("entry", kind, [a, b], False, warms_of(kind)[(len(a) + len(b)) % 2], argform=ARGFORMS[k % 4])
+    # ---- geometry far from the origin moved by maps that are small against its coordinates
+    for kind in FAR_KINDS:
+        big = kind == "scene_far"
+        for j, n in enumerate(FAR_MAPS):
+            for w, warm in enumerate(warms_of(kind)[-2:] if big or not quick else [warms_of(kind)[-1 - j % 2]]):
+                exact("far", kind, [n], False, warm, argform=ARGFORMS[(w + j) % 2])
+            if big or not quick or j % 3 == 0:
+                exact("far", kind, [n], True, warms_of(kind)[-1])
+        pairs = [("nudge", "nudge"), ("e_nudge", "nudge"), ("nudge", "translate"), ("translate", "e_nudge"), ("rigid_z", "nudge"), ("nudge", "rigid_z"),
+                 ("mirror", "e_nudge"), ("nudge", "scale"), ("e_nudge", "e_nudge")]
+        pairs += pick([x for x in itertools.product(FAR_MAPS, repeat=2) if x not in pairs], (24 if big else 6) if quick else 10 ** 6)
+        for k, (a, b) in enumerate(pairs):
+            exact("far", kind, [a, b], False, warms_of(kind)[-1 - k % 2], argform=ARGFORMS[k % 2], between=bool(k % 3 == 0))
+            if big or k < 4:
+                exact("far", kind, [a, b], True, warms_of(kind)[-1])          # nudge, move, then the inverse of both
     # ---- the same matrix in another container / dtype / memory layout
     for kind in MESH_KINDS[:2] + ["cloud", "path3d", "path2d", "prim_box", "voxel", "scene"]:
         ms = PLANAR if kind == "path2d" else MATRIX
         for form in FORMS:
-            sel = ["mirror_aniso", "rigid_z", "mirror"] + (pick([m for m in ms if m not in ("mirror_aniso", "rigid_z", "mirror")], 2 if quick else 30))
+            sel = ["mirror_aniso", "rigid_z", "mirror"] + (pick([m for m in ms if m not in ("mirror_aniso", "rigid_z", "mirror")], 1 if quick else 30))
             for n in sel:
                 if n in ms:
                     exact("forms", kind, [n], False, warms_of(kind)[-1], form=form)
@@ -965,7 +1055,8 @@ def build_jobs(tier):
     return jobs
 
 
-NEED = {"base": 700, "twice": 120, "seeds": 300, "entry": 250, "forms": 150, "attached": 250, "between": 150, "empty": 60}
+NEED = {"base": 700, "twice": 120, "seeds": 300, "entry": 250, "forms": 150, "attached": 250, "between": 150, "empty": 60, "far": 180}
+NEED["twice"] = 100
 
 
 def main(argv):
@@ -1007,27 +1098,31 @@ def main(argv):
     n_near, near_fails = near_identity(tm)
     for f in near_fails:
         V.violation(f"{f['kind']}:{f['clause']}", f)
-    bykind, byfam, laws, forms_seen, entry_seen = {}, {}, {}, set(), set()
+    bykind, byfam, laws, forms_seen, entry_seen, argforms_seen = {}, {}, {}, set(), set(), set()
     for m, c in zip(meta, cases):
         bykind[m["kind"]] = bykind.get(m["kind"], 0) + 1
         byfam[m["family"]] = byfam.get(m["family"], 0) + 1
-        for law in ("has_vol", "has_com", "has_area", "has_inertia", "has_bounds"):
+        for law in ("has_vol", "has_com", "has_area", "has_inertia", "has_bounds", "has_parea", "has_plen"):
             laws[law] = laws.get(law, 0) + int(bool(c["obs"][law]))
         if m["family"] == "forms":
             forms_seen.add(m["opts"]["form"])
         entry_seen.update(n for n in m["names"] if n in ENTRY)
+        argforms_seen.update((n, m["opts"].get("argform", "asis")) for n in m["names"] if n in VECTOR_ENTRY)
     # ---- no vacuity: every family, kind, law, container and entry point was really exercised
     for fam, need in NEED.items():
         if byfam.get(fam, 0) < need:
             raise MachineryError(f"family {fam}: only {byfam.get(fam, 0)} records (need {need})")
-    for kind in MESH_KINDS + ["cloud", "path3d", "path2d", "prim_box", "voxel", "voxel_identity", "scene", "mesh_empty", "cloud_empty", "voxel_empty"]:
+    for kind in MESH_KINDS + FAR_KINDS + ["cloud", "path3d", "path2d", "prim_box", "voxel", "voxel_identity", "scene", "mesh_empty", "cloud_empty", "voxel_empty"]:
         if bykind.get(kind, 0) < 20:
             raise MachineryError(f"kind {kind}: only {bykind.get(kind, 0)} records")
-    for law, need in (("has_vol", 400), ("has_com", 400), ("has_area", 60), ("has_inertia", 60), ("has_bounds", 800)):
+    for law, need in (("has_vol", 400), ("has_com", 400), ("has_area", 60), ("has_inertia", 60), ("has_bounds", 800), ("has_parea", 120), ("has_plen", 60)):
         if laws.get(law, 0) < need:
             raise MachineryError(f"law {law}: carried by only {laws.get(law, 0)} records (need {need})")
     if forms_seen != set(FORMS) or entry_seen != set(ENTRY):
         raise MachineryError(f"containers {sorted(forms_seen)} / entry points {sorted(entry_seen)} incomplete")
+    missing = [(n, af) for n in VECTOR_ENTRY for af in ("asis", "ndarray", "tuple") if (n, af) not in argforms_seen]
+    if missing:
+        raise MachineryError(f"entry point argument containers never exercised: {missing}")
     rational = sum(1 for m in meta if any(n in RATIONAL for n in m["names"]))
     singular = sum(1 for m in meta if any(n in SINGULAR for n in m["names"]))
     if rational < 200 or singular < 80:
@@ -1040,6 +1135,7 @@ def main(argv):
            "cases_per_kind": bykind, "cases_per_family": byfam, "laws_carried": laws,
            "records_with_rational_maps": rational, "records_with_singular_maps": singular,
            "matrix_containers": sorted(forms_seen), "entry_points": sorted(entry_seen),
+           "entry_argument_containers": sorted({af for _, af in argforms_seen}),
            "primitive_refusals_accepted": len(refused), "curved_primitive_cases": tally,
            "near_identity_cases": n_near,
            "map_classes": list(MAPS), "tlc_wall_s": round(wall, 1),
